@@ -38,6 +38,7 @@ func runC27(c *Ctx) {
 	const pkg = "common/trie/mta"
 	pf := c.pkgFuncs(pkg)
 	runC27Lazy(c, pf)
+	runC27Walk(c, pf)
 
 	// the code itself stores nil into root slots: confirm the premise of the rule
 	nNil := 0
@@ -299,5 +300,191 @@ func runC27Lazy(c *Ctx, pf []*ssa.Function) {
 		tr, reach := pathAvoiding(fl, sets[0].Instr, isInstr(marks[0].Store), nil)
 		pathEdgeFilter = nil
 		c.check(dominatesInstr(sets[0].Instr, marks[0].Store) && !reach, "C27.lazy-hash", "a branch is marked flushed only after it was stored", marks[0].Store.Pos(), "Set == nil → stateFlushed", "the node is marked flushed before or despite a failed store: it will never be written ("+traceString(tr)+")")
+	}
+}
+
+// runC27Walk: the witness walk and its mirror. (1) a branch goes left iff
+// idx < 2^(depth-1), passes (depth-1, idx) left and (depth-1, idx-2^(depth-1))
+// right, and appends the other child's hash with the side it lies on; (2) a
+// hash node stops only at depth 0 and otherwise hands (depth, idx, w) unchanged
+// to the node it resolves to; (3) a node constructed in a state that claims a
+// cached hash carries one; (4) HashesToWitness derives level i's side from bit
+// i of the index (test before the shift); (5) Verify's running hash is a fresh
+// slice, never a window of the scratch buffer it is copied into.
+func runC27Walk(c *Ctx, pf []*ssa.Function) {
+	const pkg = "common/trie/mta"
+	left, okL := c.constVal(pkg, "Left")
+	right, okR := c.constVal(pkg, "Right")
+	if !okL || !okR {
+		c.undecided("C27.witness-walk", "Left/Right", token.NoPos, "direction constants not found")
+		return
+	}
+	const bound = `^\(1 << \(\$0 - 1\)\)$`
+	if f := c.mustFn(pkg, "branchNode", "WitnessFor"); f != nil {
+		n := 0
+		for _, cs := range c.calls(f, byMethod("WitnessFor")) {
+			_, a := callArgs(cs.Common())
+			switch render(cs.Common().Value) {
+			case "$r.left":
+				n++
+				c.requireAt("C27.witness-walk", "branch descends left", cs.Instr, wGE("idx < 2^(depth-1)", -1, t(-1, `^\$1$`), t(1, bound)))
+				c.check(render(a[0]) == "($0 - 1)" && render(a[1]) == "$1" && render(a[2]) == "$2", "C27.witness-walk", "left descent passes (depth-1, idx, w)", cs.Pos(), "unchanged index", "passes "+render(cs.Instr.Value()))
+			case "$r.right":
+				n++
+				c.requireAt("C27.witness-walk", "branch descends right", cs.Instr, wGE("idx ≥ 2^(depth-1)", 0, t(1, `^\$1$`), t(-1, bound)))
+				c.check(render(a[0]) == "($0 - 1)" && render(a[1]) == "($1 - (1 << ($0 - 1)))" && render(a[2]) == "$2", "C27.witness-walk", "right descent passes (depth-1, idx-2^(depth-1), w)", cs.Pos(), "rebased index", "passes "+render(cs.Instr.Value())+": the index is not rebased to the right subtree, so the walk below takes the wrong turns")
+			default:
+				c.violate("C27.witness-walk", "branch descent target", cs.Pos(), "descends into "+render(cs.Common().Value))
+			}
+		}
+		if n != 2 {
+			c.undecided("C27.witness-walk", "branchNode.WitnessFor descents", f.Pos(), fmt.Sprintf("expected 2, found %d", n))
+		}
+		nw := 0
+		for _, b := range f.Blocks {
+			for _, in := range b.Instrs {
+				al, ok := in.(*ssa.Alloc)
+				if !ok || namedOf(al.Type()) != "Witness" {
+					continue
+				}
+				var dir int64 = -1
+				hv := ""
+				for _, st := range fieldStoresAny([]*ssa.Function{f}, "Witness") {
+					if st.Addr.X != ssa.Value(al) {
+						continue
+					}
+					switch fieldName(st.Addr.X.Type(), st.Addr.Field) {
+					case "Direction":
+						dir, _ = constInt(st.Store.Val)
+					case "HashValue":
+						hv = render(st.Store.Val)
+					}
+				}
+				nw++
+				for _, alt := range altGuards(b) {
+					_, wentLeft := holds(alt, wGE("idx < bound", -1, t(-1, `^\$1$`), t(1, bound)))
+					_, wentRight := holds(alt, wGE("idx ≥ bound", 0, t(1, `^\$1$`), t(-1, bound)))
+					switch {
+					case wentLeft:
+						c.check(dir == right && hv == "$r.right.Hash()", "C27.witness-walk", "after a left descent the sibling is the right child", al.Pos(), "{Right, right.Hash()}", fmt.Sprintf("appends {%d, %s}", dir, hv))
+					case wentRight:
+						c.check(dir == left && hv == "$r.left.Hash()", "C27.witness-walk", "after a right descent the sibling is the left child", al.Pos(), "{Left, left.Hash()}", fmt.Sprintf("appends {%d, %s}", dir, hv))
+					default:
+						c.violate("C27.witness-walk", "sibling appended on a decided side", al.Pos(), "guards: "+guardsString(alt))
+					}
+				}
+			}
+		}
+		if nw != 2 {
+			c.undecided("C27.witness-walk", "branchNode.WitnessFor witnesses", f.Pos(), fmt.Sprintf("expected 2 sibling records, found %d", nw))
+		}
+	}
+	if f := c.mustFn(pkg, "hashNode", "WitnessFor"); f != nil {
+		n := 0
+		for _, e := range exitAlts(f) {
+			if !isNilConst(e.Results[2]) {
+				continue
+			}
+			n++
+			c.requireGuard("C27.witness-walk", "hash node ends the walk", e.pos(), e.Guards, wGE("depth < 1", 0, t(-1, `^\$0$`)))
+			c.check(render(e.Results[1]) == "$2", "C27.witness-walk", "the walk ends with the witness collected so far", e.pos(), "w", "returns "+render(e.Results[1]))
+		}
+		if n == 0 {
+			c.undecided("C27.witness-walk", "hashNode.WitnessFor leaf exit", f.Pos(), "not found")
+		}
+		ds := c.calls(f, byMethod("WitnessFor"))
+		for _, cs := range ds {
+			_, a := callArgs(cs.Common())
+			c.check(render(a[0]) == "$0" && render(a[1]) == "$1" && render(a[2]) == "$2" && strings.HasSuffix(render(cs.Common().Value), "$r.resolve()#0"), "C27.witness-walk", "hash node hands the walk to the node it resolves to", cs.Pos(), "resolve().WitnessFor(depth, idx, w)", "delegates as "+render(cs.Instr.Value()))
+		}
+		if len(ds) != 1 {
+			c.undecided("C27.witness-walk", "hashNode.WitnessFor delegation", f.Pos(), fmt.Sprintf("%d delegations", len(ds)))
+		}
+	}
+	// (3) constructed nodes
+	nAl := 0
+	for _, f := range pf {
+		for _, b := range f.Blocks {
+			for _, in := range b.Instrs {
+				al, ok := in.(*ssa.Alloc)
+				if !ok {
+					continue
+				}
+				tn := namedOf(al.Type())
+				if tn != "branchNode" && tn != "dataNode" {
+					continue
+				}
+				var state int64
+				got := map[string]bool{}
+				for _, st := range fieldStoresAny([]*ssa.Function{f}, tn) {
+					if st.Addr.X != ssa.Value(al) {
+						continue
+					}
+					fn := fieldName(st.Addr.X.Type(), st.Addr.Field)
+					if fn == "state" {
+						if k, ok := constInt(st.Store.Val); ok {
+							state = k
+						} else {
+							state = 99
+						}
+					}
+					if !isNilConst(st.Store.Val) {
+						got[fn] = true
+					}
+				}
+				nAl++
+				if state == 0 {
+					c.okTrivial("C27.node-state", tn+" constructed dirty in "+fnName(f), al.Pos(), "hash computed on demand")
+					continue
+				}
+				c.check(got["hashValue"] && (tn != "branchNode" || got["serialized"]), "C27.node-state", tn+" constructed in a hashed state carries its hash", al.Pos(), "hashValue"+map[bool]string{true: "+serialized", false: ""}[tn == "branchNode"], "the node claims state "+fmt.Sprint(state)+" but has no cached hash: Hash() returns nil and every witness through it fails to verify")
+			}
+		}
+	}
+	if nAl < 3 {
+		c.undecided("C27.node-state", "node constructions", token.NoPos, fmt.Sprintf("expected ≥3, found %d", nAl))
+	}
+	// (4) HashesToWitness
+	if f := c.mustFn(pkg, "", "HashesToWitness"); f != nil {
+		n := 0
+		const low = `^\(phi\(\$1\|\(phi\(…\) / 2\)\) % 2\)$`
+		for _, st := range fieldStores([]*ssa.Function{f}, "Witness", "Direction") {
+			k, _ := constInt(st.Store.Val)
+			n++
+			if k == right {
+				c.requireAt("C27.witness-mirror", "HashesToWitness: level i is a Right sibling", st.Store, wEQ("bit i of idx is 0", 0, t(1, low)))
+			} else {
+				c.requireAt("C27.witness-mirror", "HashesToWitness: level i is a Left sibling", st.Store, wNE("bit i of idx is 1", 0, t(1, low)))
+			}
+		}
+		if n != 2 {
+			c.undecided("C27.witness-mirror", "HashesToWitness direction stores", f.Pos(), fmt.Sprintf("expected 2, found %d", n))
+		}
+	}
+	// (5) Verify
+	if f := c.mustFn(pkg, "Accumulator", "Verify"); f != nil {
+		n := 0
+		for _, b := range f.Blocks {
+			for _, in := range b.Instrs {
+				phi, ok := in.(*ssa.Phi)
+				if !ok || phi.Comment != "h" {
+					continue
+				}
+				for _, e := range phi.Edges {
+					n++
+					switch x := e.(type) {
+					case *ssa.Parameter:
+						c.okTrivial("C27.verify-fold", "running hash starts from the item hash", phi.Pos(), "h")
+					case *ssa.Call:
+						c.check(strings.HasSuffix(calleeName(x.Common()), "crypto.SHA3Sum256"), "C27.verify-fold", "running hash is the SHA3 of the pair", x.Pos(), "fresh slice", "folded with "+calleeName(x.Common()))
+					default:
+						c.violate("C27.verify-fold", "running hash is a fresh slice", phi.Pos(), "h = "+render(e)+": the running hash lives in the scratch buffer and is overwritten by the next level's copy")
+					}
+				}
+			}
+		}
+		if n < 2 {
+			c.undecided("C27.verify-fold", "Verify running hash", f.Pos(), "phi for h not found")
+		}
 	}
 }
